@@ -367,9 +367,11 @@ def c20_execute(trace, tier, res):
                                 " after an episode exceeds the reference "
                                 "minimum", advertised=adv_after,
                                 reference=ref)
-            if total > min(ub, ub_after) + 1e-6:
+            if total > min(ub, ub_after):
                 ub = min(ub, ub_after)
-            if total > ub + 1e-6:
+            # rewards live in float32 cells: the comparison uses the same
+            # relative tolerance as every other reward comparison (1e-5)
+            if total > ub and not model.feq(total, ub):
                 raise Violation(
                     "C20.bound", "a goal-reaching episode on the real "
                     "environment earned more than the advertised score "
@@ -377,7 +379,7 @@ def c20_execute(trace, tier, res):
                     advertised_hops=adv, reference_min_hosts=ref,
                     plan=plan, sensitive=sorted(cfg.sensitive),
                     topology=cfg.topology)
-        if best is not None and abs(best - ub) < 1e-6:
+        if best is not None and model.feq(best, ub):
             counters.hit("probe.bound_attained")
         res["steps"] = res["ops"]
     except Violation as v:
